@@ -71,5 +71,37 @@ for h in 3012c3c dc1be9d 7f8c4c6 474577c; do
   git revert --abort >/dev/null 2>&1; git reset -q --hard HEAD
 done
 
+
+# mutations that are THE SAME IN EVERY PROCESS (an off-by-one in a harness's op generator): the
+# cross-process oracle is blind to them by construction, only the model's prediction disagrees.
+# One per modelled harness family; expected: `model-disagreement`, VIOLATION … no-failing-input-found
+mut() { # file, old, new
+  python3 - "$1" "$2" "$3" <<'PY'
+import sys
+p,old,new=sys.argv[1:4]
+s=open(p).read()
+assert s.count(old)>=1,(p,old)
+open(p,'w').write(s.replace(old,new,1))
+PY
+}
+echo "== (m1) set_dst: random_member draws gen_range(0, num_members + 1)"
+mut src/redis/set_dst.rs 'self.rng.gen_range(0, self.config.num_members as u64)' 'self.rng.gen_range(0, self.config.num_members as u64 + 1)'
+run_check; git checkout -q .
+echo "== (m2) hash_dst: random_value draws gen_range(0, num_values + 1)"
+mut src/redis/hash_dst.rs 'self.rng.gen_range(0, self.config.num_values as u64)' 'self.rng.gen_range(0, self.config.num_values as u64 + 1)'
+run_check; git checkout -q .
+echo "== (m3) list_dst: op_type draws gen_range(0, 101)"
+mut src/redis/list_dst.rs 'let op_type = self.rng.gen_range(0, 100);' 'let op_type = self.rng.gen_range(0, 101);'
+run_check; git checkout -q .
+echo "== (m4) sorted_set_dst: random_score draws one more value"
+mut src/redis/sorted_set_dst.rs '.gen_range(0, (self.config.max_score * 100.0) as u64);' '.gen_range(0, (self.config.max_score * 100.0) as u64 + 1);'
+run_check; git checkout -q .
+echo "== (m5) transaction_dst: random_value draws gen_range(0, 101)"
+mut src/redis/transaction_dst.rs 'let idx = self.rng.gen_range(0, 100);' 'let idx = self.rng.gen_range(0, 101);'
+run_check; git checkout -q .
+echo "== (m6) wal_dst: crash point drawn from 0..num_writes instead of 1..=num_writes"
+mut src/streaming/wal_dst.rs 'self.rng.gen_range(1, (self.config.num_writes as u64).saturating_add(1)) as usize' 'self.rng.gen_range(0, self.config.num_writes as u64) as usize'
+run_check; git checkout -q .
+
 sed -i 's#path = "/tmp/sim-repo"#path = "/repo"#' /work/sim/harness/Cargo.toml
 echo "== restored"; cd /work/sim && git diff --stat harness/Cargo.toml
